@@ -93,8 +93,9 @@ theorem BuildTermFromRunesOptimistic_spec (buf : List (BitVec 8)) (runes : List 
 theorem BuildTermFromRunes_spec (runes : List (BitVec 32)) (hN : runes.length < 2 ^ 61) :
     wp (BuildTermFromRunes runes) (fun _ => True) := by
   unfold BuildTermFromRunes
-  refine BuildTermFromRunesOptimistic_spec _ runes hN ?_ (.inr ?_)
-  all_goals bv_len
+  refine wp_bind_makeSlice ?_ (fun ys hys => ?_)
+  · bv_len
+  · refine BuildTermFromRunesOptimistic_spec ys runes hN ?_ (.inr ?_) <;> bv_len
 
 theorem BuildTermFromRunes_bind {β : Type} {runes : List (BitVec 32)} {f : List (BitVec 8) → Res β} {Q : β → Prop}
     (h : runes.length < 2 ^ 61) (hk : ∀ o, wp (f o) Q) : wp (BuildTermFromRunes runes >>= f) Q :=
